@@ -297,6 +297,24 @@ func (s *shared) calls() []call {
 			}
 			return r
 		}},
+		// ranges ending exactly at the right-most leaf and whole ranges, as two calls: whichever runs first must not
+		// change what the other returns
+		{"AllPathsUptoLastLeaf", func() interface{} {
+			var r [][]uint64
+			for _, m := range s.masks[:3] {
+				h := bmtree.Height(m)
+				last := bmtree.NewPath(1<<uint(h)-1, h, h)
+				r = append(r, bmtree.AllPaths(m, 0, last), bmtree.AllPaths(m, last, last), bmtree.AllPaths(m, last, last+1))
+			}
+			return r
+		}},
+		{"AllPathsWhole", func() interface{} {
+			var r [][]uint64
+			for _, m := range s.masks[:3] {
+				r = append(r, bmtree.AllPaths(m, 0, 1<<63), bmtree.AllPaths(m, 0, ^uint64(0)))
+			}
+			return r
+		}},
 		{"FirstDiffSeeded", func() interface{} {
 			var r []int
 			for _, w := range []int{1, 2, 4, 8} {
